@@ -15,7 +15,7 @@ RULE = ("generated object graphs (lists, tuples, sets, dicts, plain objects; nes
         "py/id numbering and the decoded graph's shape compared in Coq; (rec) stored in a MemoryRecording and read "
         "twice; (cas) saved to and fetched from the in-memory, file and S3 cassettes along a random history of lookups, "
         "fetches and in-place mutations; (play) recorded through TapeRecorder and replayed several times while the "
-        "replayed code mutates what it is handed; (copy) intercepted with copy-on-interception on and off, with and without an input data handler whose recorded form embeds live call arguments (out-parameter, request object), under every way the recording comes to be saved (sampling rate 0 / in between / 1, force_sample_recording() called before, inside or after the interception, after the in-place mutation or at the end of the operation - a probe stream that always runs enumerates rate x enforcement point x handler); (rec, stream unser) values with a leaf the serializer refuses, whose copy cannot be made; (deep) reads made at EVERY remaining stack headroom - the copy needs stack of its own, so for every value there is a band of headrooms below the recursion limit in which it cannot be completed: a probe stream that always runs enumerates headroom 1, 2, 3, .. frames until the read succeeded 8 times in a row, for get_data / __getitem__ of a MemoryRecording and of a recording fetched from each cassette, for get_recording itself, and for every way a replay hands recorded values to replayed code that recurses before asking (plain input, pass-through data handler, play_data, output result, recorded exception; one replay per headroom), on flat, generated and 3-40 level nested values: a read may fail there, it never hands out the stored object graph.  The direct "
+        "replayed code mutates what it is handed; (copy) intercepted with copy-on-interception on and off, with and without an input data handler whose recorded form embeds live call arguments (out-parameter, request object), under every way the recording comes to be saved (sampling rate 0 / in between / 1, force_sample_recording() called before, inside or after the interception, after the in-place mutation or at the end of the operation - a probe stream that always runs enumerates rate x enforcement point x handler; and with the operation class inside a class hierarchy whose OTHER members (base, grand-base, mixin, derived, sibling, unrelated class) are configured on the same recorder with a different copy flag / rate, before or after it, the operation defined in the class or inherited, instance or class-level - a second probe stream that always runs enumerates role x flag x registration order x where the operation is defined: the flag that counts is the one registered for the class the operation runs on); (rec, stream unser) values with a leaf the serializer refuses, whose copy cannot be made; (deep) reads made at EVERY remaining stack headroom - the copy needs stack of its own, so for every value there is a band of headrooms below the recursion limit in which it cannot be completed: a probe stream that always runs enumerates headroom 1, 2, 3, .. frames until the read succeeded 8 times in a row, for get_data / __getitem__ of a MemoryRecording and of a recording fetched from each cassette, for get_recording itself, and for every way a replay hands recorded values to replayed code that recurses before asking (plain input, pass-through data handler, play_data, output result, recorded exception; one replay per headroom), on flat, generated and 3-40 level nested values: a read may fail there, it never hands out the stored object graph.  The direct "
         "predicate walks the real objects by id() (no shared mutable node between handed-out value and store / other "
         "hand-outs) and compares order-insensitive snapshots before and after the mutations.  non-trivial = at least "
         "one mutable container in a handed-out value; distinct = distinct case")
@@ -33,6 +33,7 @@ CTYPES = ["mem", "file", "s3"]
 HFORMS = ("result", "pair", "dict", "req", "buf_only", "nested", "fresh")
 FORCE_POINTS = ("start", "in_input", "after_input", "after_mutation", "end")
 RATES = (0, 0.3, 0.999, 1.0)
+FAMILY_ROLES = ("base", "grandbase", "mixin", "derived", "sibling", "unrelated")
 KEYS = [k for k in pv.KEY_TEXTS]
 ATTRS = ["x", "y", "name", "é", "_p", "items"]
 CLS = ["lib.pyvals.Pt", "lib.pyvals.Qt"]
@@ -208,7 +209,62 @@ def generate(rng, tier):
         cases.append(c)
     cases += sampling_probes(rng)
     cases += deep_probes(rng, tier)
+    cases += family_probes(rng, tier)       # (appended last: the streams above draw exactly what they drew before)
     return cases
+
+
+def _copy_case(rng, **kw):
+    c = dict(kind="copy", copy=True, vin=value_graph(rng), vout=_g([D(("rows", R(1))), L(pv.i(1), pv.i(2))]),
+             script=[[0, 1], [1, 3]], hform=None, via="arg", static=False,
+             vbuf=_g([L(R(1)), D(("x", pv.i(1)))]), vreq=_g([D(("q", R(1))), L(pv.i(1))]))
+    if not any(nd["k"] in hg.MUTABLE_KINDS for nd in c["vin"]["heap"]):
+        c["vin"] = _g([T(R(1), pv.i(3)), L(pv.i(30), pv.i(10), pv.i(20))])
+    c.update(kw)
+    return c
+
+
+def family_probes(rng, tier):
+    """Copy-on-interception is enabled PER OPERATION CLASS, and a recorder serves many classes: the operation class inside a
+    class hierarchy (GrandBase <- Base <- Op(Base, Mixin) <- Derived; Sibling(Base); Unrelated) whose other members are
+    configured on the same recorder with parameters of their own.  Always run, both tiers, enumerated: which other class is
+    configured (base, grandbase, mixin, derived, sibling, unrelated) x its copy flag x whether it was registered before or
+    after the operation class x where the decorated operation is defined (the class itself / inherited from Base); data
+    handler, class-level operation and the other class's sampling rate (default / 1.0 - the recording is saved either way)
+    alternate.  Copy-on is enabled for the operation class in all of them: what is recorded must be the copy.  Then a random
+    stream: 1-3 other classes, any parameters (copy flag, sampling rate incl. 0, skipped, ignore_enforced_sampling), any
+    registration order, the case's own flag / rate / enforcement point drawn as in the main copy stream."""
+    out = []
+    n = 0
+    for role in FAMILY_ROLES:
+        for other_copy in (False, True):
+            for order in ("before", "after"):
+                for op_in in ("own", "base"):
+                    other = [role, {"copy": other_copy, "rate": (None, 1.0)[n % 2]}]
+                    reg = [other, ["own", None]] if order == "before" else [["own", None], other]
+                    out.append(_copy_case(rng, stream="family", hform=(None, "dict", None, "pair")[(n // 2) % 4],
+                                          family=dict(register=reg, op_in=op_in, classlevel=(n // 3) % 4 == 3)))
+                    n += 1
+    for _ in range(24 if tier == "quick" else 400):
+        others = [[rng.choice(FAMILY_ROLES), {"copy": rng.random() < 0.4, "rate": rng.choice((None, None) + RATES),
+                                              "skipped": rng.random() < 0.1, "ignore": rng.random() < 0.1}]
+                  for _ in range(rng.randrange(1, 4))]
+        seen, reg = set(), []
+        for o in others:                                    # one registration per class
+            if o[0] not in seen:
+                seen.add(o[0])
+                reg.append(o)
+        reg.insert(rng.randrange(len(reg) + 1), ["own", None])
+        c = _copy_case(rng, stream="family", copy=rng.random() < 0.75, vin=value_graph(rng, big=rng.random() < 0.3),
+                       vout=value_graph(rng), script=rand_script(rng), hform=rng.choice([None, None, None] + list(HFORMS)),
+                       via=rng.choice(["arg", "arg", "kwarg"]), static=rng.random() < 0.25,
+                       family=dict(register=reg, op_in=rng.choice(["own", "own", "base", "grandbase"]),
+                                   classlevel=rng.random() < 0.25))
+        if rng.random() < 0.5:
+            c["rate"] = rng.choice(RATES)
+            c["rseed"] = rng.randrange(1000)
+            c["force"] = rng.choice(FORCE_POINTS) if (c["rate"] == 0 or rng.random() < 0.5) else None
+        out.append(c)
+    return out
 
 
 def sampling_probes(rng):
@@ -443,13 +499,16 @@ def direct(case, obs):
             return f                    # not sampled (rate < 1, not enforced): no recording, nothing is claimed
         for o in obs["values"]:
             if not o.get("recorded"):
-                f.append(("copy-not-recorded", "%s: nothing recorded (sampling rate %r, sampling enforced at %r)" %
-                          (o["tag"], case.get("rate"), case.get("force"))))
+                f.append(("copy-not-recorded", "%s: nothing recorded (sampling rate %r, sampling enforced at %r%s)" %
+                          (o["tag"], case.get("rate"), case.get("force"),
+                           "; " + _family_text(case["family"]) if case.get("family") else "")))
                 continue
             if case["copy"] and o["copy_possible"]:
                 how = "data handler form %r" % case.get("hform") if (case.get("hform") and o["tag"] == "in") else "no data handler"
                 if case.get("rate") is not None or case.get("force"):
                     how += "; sampling rate %r, force_sample_recording() at %r" % (case.get("rate"), case.get("force"))
+                if case.get("family"):
+                    how += "; " + _family_text(case["family"])
                 if _sh(o["share_recorded_result"]):
                     f.append(("copy-on-recorded-shares-result", "%s (%s): with copy-on-interception the recorded value shares %r with the value "
                               "returned to the service" % (o["tag"], how, o["share_recorded_result"])))
@@ -461,6 +520,14 @@ def direct(case, obs):
                     f.append(("copy-on-recording-follows-later-mutation", "%s (%s): with copy-on-interception the recorded value is not the copy "
                               "of what was captured: %s vs %s" % (o["tag"], how, o.get("recorded_snap"), o.get("at_capture"))))
     return f
+
+
+def _family_text(fam):
+    return ("operation class Op in a hierarchy (GrandBase <- Base <- Op(Base, Mixin) <- Derived, Sibling(Base), Unrelated), %s "
+            "operation defined in %s; recording_params registered on the same recorder, in this order: %s" %
+            ("class-level" if fam.get("classlevel") else "instance", fam.get("op_in", "own"),
+             ", ".join("Op (the case's own parameters)" if w == "own" else "%s %s" % (w, json.dumps(p, sort_keys=True))
+                       for w, p in fam["register"])))
 
 
 def _band(o):
@@ -634,6 +701,20 @@ def features(case):
         f.add("sampling-enforced:%s" % case.get("force"))
         if case["copy"] and rate == 0 and case.get("force") in ("after_input", "after_mutation", "end"):
             f.add("copy-on:rate-0-enforced-after-capture")
+        fam = case.get("family")
+        f.add("operation-class:%s" % ("in-hierarchy" if fam else "flat, the only configured class"))
+        if fam:
+            f.add("operation-defined-in:%s" % fam.get("op_in", "own"))
+            f.add("operation:%s" % ("class-level" if fam.get("classlevel") else "instance"))
+            own_at = [w for w, _ in fam["register"]].index("own") if any(w == "own" for w, _ in fam["register"]) else None
+            for i, (w, p) in enumerate(fam["register"]):
+                if w != "own":
+                    f.add("also-configured:%s:%s" % (w, "before" if own_at is None or i < own_at else "after"))
+                    f.add("also-configured-copy-flag:%s" % ("same" if bool(p.get("copy")) == bool(case["copy"]) else "differs"))
+                    if p.get("skipped"):
+                        f.add("also-configured:skipped-class")
+                    if p.get("rate") is not None and p.get("rate") < 1:
+                        f.add("also-configured:lower-sampling-rate")
     return f
 
 
@@ -643,7 +724,7 @@ def nontrivial(case):
 
 MANIFEST = dict(
     design_ref='6/C11',
-    text="Coq theorems on a heap model where identity and in-place mutation are expressible (locations, list/tuple/set/dict/object nodes): decode allocates only new locations (the old heap is a prefix, everything reachable from the result is new); a get_data result is such a decode of the stored datum's encoding, and for EVERY heap that agrees with the old one on the old locations - in particular after any sequence of in-place mutations and allocations made through the handed-out value (mutation locality + closure theorem) - the stored datum and the whole recording encode exactly as before; cassettes hold text, two fetches of one id occupy disjoint location ranges and mutating one changes neither the other nor a later fetch; with copy-on-interception the recorded value is a decode of the result's encoding at capture and later mutation of the result leaves its encoding unchanged, with the flag off a concrete example shows the recording does change (documented aliasing); a copy re-encodes to the same JSON, so reads and copy-on recordings are faithful (three _partial theorems: proved for canonical encodings without py/id, i.e. no list/object met twice; false with py/id, witness example).  The model (jsonpickle 0.9.3 encode incl. py/id numbering, decode incl. id table and the second restore pass over object state) is tied to /repo on every run by comparing exact encode text, decoded graph shape and re-encode text for generated graphs with sharing and cycles.  Direct predicate on the real MemoryRecording, TapeRecorder.play, recorded_outputs, copy-on-interception (for every sampling rate / enforced-sampling point under which the recording is saved) and all three cassettes - at ordinary stack depth and, enumerated frame by frame, at every stack headroom at which the copy a read has to make cannot be completed (a read may raise there, never hand out the stored object) - : id()-walk disjointness of mutable nodes between every handed-out value and the store / other hand-outs, then scripted in-place mutation through every reachable mutable node and re-read / re-fetch / re-play comparison.",
+    text="Coq theorems on a heap model where identity and in-place mutation are expressible (locations, list/tuple/set/dict/object nodes): decode allocates only new locations (the old heap is a prefix, everything reachable from the result is new); a get_data result is such a decode of the stored datum's encoding, and for EVERY heap that agrees with the old one on the old locations - in particular after any sequence of in-place mutations and allocations made through the handed-out value (mutation locality + closure theorem) - the stored datum and the whole recording encode exactly as before; cassettes hold text, two fetches of one id occupy disjoint location ranges and mutating one changes neither the other nor a later fetch; with copy-on-interception the recorded value is a decode of the result's encoding at capture and later mutation of the result leaves its encoding unchanged, with the flag off a concrete example shows the recording does change (documented aliasing); a copy re-encodes to the same JSON, so reads and copy-on recordings are faithful (three _partial theorems: proved for canonical encodings without py/id, i.e. no list/object met twice; false with py/id, witness example).  The model (jsonpickle 0.9.3 encode incl. py/id numbering, decode incl. id table and the second restore pass over object state) is tied to /repo on every run by comparing exact encode text, decoded graph shape and re-encode text for generated graphs with sharing and cycles.  Direct predicate on the real MemoryRecording, TapeRecorder.play, recorded_outputs, copy-on-interception (for every sampling rate / enforced-sampling point under which the recording is saved, for a flat operation class and for one inside a class hierarchy whose other classes are configured differently on the same recorder) and all three cassettes - at ordinary stack depth and, enumerated frame by frame, at every stack headroom at which the copy a read has to make cannot be completed (a read may raise there, never hand out the stored object) - : id()-walk disjointness of mutable nodes between every handed-out value and the store / other hand-outs, then scripted in-place mutation through every reachable mutable node and re-read / re-fetch / re-play comparison.",
     note='Trusted: Coq kernel + vm_compute; hand-written heap model of jsonpickle 0.9.3 on py3.12 for lists/tuples/sets/str-keyed dicts/plain objects (custom __getstate__/__reduce__ classes, non-str keys, exceptions are outside the model and covered by the direct predicate only); json.dumps/json.loads taken as inverse on pickler output; quoted-printable oracle.  Round trip of a copy is proved for id-free encodings only (partial): with shared lists/objects jsonpickle itself mis-resolves py/id after an object whose state holds a list (model reproduces it; a fidelity matter of C07, not independence).  Output arguments are never copied even with copy-on (flag covers intercepted return values): observation, not claimed.',
     technique='Coq proof (fuel induction over a heap model with explicit locations; locality/frame lemmas) + exact-text and graph-shape correspondence by vm_compute + id()-based aliasing walk and mutate/re-read/re-fetch/re-play differential run on the real classes',
 )
